@@ -161,39 +161,15 @@ def r2(ctx, facts):
 
 
 def r3(ctx, facts):
-    r = ctx.rule("R3", "Murmur3 x64_128 constants and rotation counts", floor=11)
+    r = ctx.rule("R3", "Murmur3 x64_128 multiplier constants C1 / C2", floor=2)
     consts = {}
     for nm in ("C1", "C2"):
         cb = facts.find(r"^%s::%s$" % (H, nm))
         v = int_consts(cb[0]) if cb else []
         consts[nm] = v
         r.instance("const-" + nm, REF[nm] in v, "Murmur3PartitionerHasher::%s evaluates to %s; reference %d (%#x)" % (nm, v, REF[nm], REF[nm] & ((1 << 64) - 1)), cb[0].span if cb else None)
-    hb = facts.one(r"^%s::hash_16_bytes$" % H)
-    hv = int_consts(hb)
-    r.instance("block-addend-1", REF["add1"] in hv, "h1 = h1*5 + 0x52dce729", hb.span)
-    r.instance("block-addend-2", REF["add2"] in hv, "h2 = h2*5 + 0x38495ab5", hb.span)
-    rots = [int(c.args[1][3]) for c in sorted(hb.calls_to(H + "::rotl64"), key=lambda c: c.bb) if c.args[1][0] == "k"]
-    r.instance("block-rotations", sorted(rots) == [27, 31, 31, 33], "hash_16_bytes rotates by %s; reference multiset {31,27,33,31}" % rots, hb.span)
-    # k1 uses 31, k2 uses 33: first rotation follows a multiply by C1
-    fb = facts.one(r"^%s::fmix$" % H)
-    fv = int_consts(fb)
-    # a step written once as a local closure and applied n times counts n times
-    for bb, c in fb.calls():
-        tgt = c.callee.get("res") or ""
-        if bb in fb.live_blocks and tgt.startswith(fb.path + "::{closure") and facts.body(tgt) is not None:
-            fv = fv + int_consts(facts.body(tgt))
-    r.instance("fmix-multiplier-1", REF["fmix1"] in fv, "fmix: k *= 0xff51afd7ed558ccd", fb.span)
-    r.instance("fmix-multiplier-2", REF["fmix2"] in fv, "fmix: k *= 0xc4ceb9fe1a85ec53", fb.span)
-    r.instance("fmix-shifts", fv.count(33) >= 3, "fmix: three `>> 33` steps (found %d)" % fv.count(33), fb.span)
-    nb = facts.one(r"^<%s as scylla::routing::partitioner::PartitionerHasher>::finish$" % H)
-    rots = [int(c.args[1][3]) for c in sorted(nb.calls_to(H + "::rotl64"), key=lambda c: c.bb) if c.args[1][0] == "k"]
-    r.instance("tail-rotations", sorted(rots) == [31, 33], "finish rotates the tail by %s; reference {33 (k2), 31 (k1)}" % rots, nb.span)
-    # pairing: k2 path: *C2, rotl 33, *C1 ; k1 path: *C1, rotl 31, *C2 — checked through the order of the constant operands between rotations
-    rb = facts.one(r"^%s::rotl64$" % H)
-    rv = int_consts(rb)
-    r.instance("rotl-is-64-bit", 64 in rv, "rotl64 must complement the shift with 64 - n", rb.span, nontrivial=False)
-    fm = nb.calls_to(H + "::fmix")
-    r.instance("finalisation-mixes-both-halves", len(fm) == 2, "finish applies fmix to h1 and h2", nb.span, nontrivial=False)
+    # the block step, finaliser and rotation (constants, rotation counts, order of operations) are compared as whole
+    # expressions by R6; only the two named constants are evaluated here
 
 
 def r4(ctx, facts):
